@@ -175,3 +175,62 @@ func ZZ_C13_Loading() {
 	s.Wait()
 	zzAccounted(s, "after-load")
 }
+
+// ZZ_C13_LoadingWithWriter: a Set or Delete on the key interleaved with its load.
+func ZZ_C13_LoadingWithWriter() {
+	s := zzThreadedStore(10, nil)
+	ls := NewLoadingStore(s)
+	vfSetPreemptions(vfConfig("PRE", 1))
+	invocations, running := 0, 0
+	fails := vfChoose("loaderFails", 2) == 1
+	ls.Loader(func(ctx context.Context, key uint64) (Loaded[uint64], error) {
+		invocations++
+		running++
+		vfAssert("one-load-in-flight", running == 1)
+		vfYield()
+		running--
+		if fails {
+			return Loaded[uint64]{}, zzErrLoad
+		}
+		return Loaded[uint64]{Value: 100 + uint64(invocations), Cost: 1}, nil
+	})
+	del := vfChoose("writerDeletes", 2) == 1
+	var got uint64
+	var gerr error
+	done := make(chan int, 2)
+	go func() {
+		got, gerr = ls.Get(context.Background(), 1)
+		done <- 1
+	}()
+	go func() {
+		if del {
+			s.Delete(1)
+		} else {
+			s.Set(1, 777, 1, 0)
+		}
+		done <- 1
+	}()
+	<-done
+	<-done
+	vfSetPreemptions(0)
+	s.Wait()
+	vfReach("both-finished")
+	if gerr == nil {
+		vfAssert("caller-gets-loaded-or-written-value", got == 777 || (got == 101 && invocations == 1))
+	} else {
+		vfAssert("only-the-loader-error", gerr == zzErrLoad && fails)
+	}
+	e, present := s.shards[zzIndex(s, 1)].hashmap[1]
+	if present {
+		vfAssert("final-value-from-a-completed-operation", e.value == 777 || e.value == 101)
+		vfAssert("failed-load-stores-nothing", !(fails && e.value == 101))
+	}
+	if !del && !present {
+		vfFail("written-value-lost") // capacity 10: nothing evicts it
+	}
+	zzAccounted(s, "after-load-and-write")
+	// the shard and the key are usable afterwards
+	s.Set(1, 888, 1, 0)
+	v, err := ls.Get(context.Background(), 1)
+	vfAssert("key-usable-afterwards", err == nil && v == 888)
+}
